@@ -129,3 +129,29 @@ CHECKS["C09"] = {
         "hang = exceeding the deterministic creation budget",
     ],
 }
+
+CHECKS["C10"] = {
+    "level": "exploration",
+    "jobs": [
+        J("populations", "c10", "TestPopulations", 500, 8000, 8),
+        J("graphs", "c10", "TestGraphs", 400, 6000, 8),
+    ],
+    "assumptions": [
+        "registration order and the registries' enumeration order are drawn explicitly (verif hook); Go map order inside the container and the goroutine schedule of the scan phase vary freely between the repeated runs and are thereby sampled, not controlled",
+        "a lazy component that only a tied point may pull in may or may not be created; its own points are then compared only when populated in both runs",
+    ],
+}
+
+CHECKS["C13"] = {
+    "level": "fault_enumeration",
+    "jobs": [J("runners", "c13", "TestRunners", 2500, 60000, 8)],
+    "assumptions": ["the failing runner is chosen per case from all positions (each choice of failing runner, not only the first or last)"],
+}
+CHECKS["C14"] = {
+    "level": "exploration",
+    "jobs": [J("close", "c14", "TestClose", 2500, 60000, 8)],
+    "assumptions": [
+        "the harness owns the finishing order of the Close calls through per-closer gates; gates are opened independently of whether the closer has been entered, so a sequential implementation is not rejected",
+        "the only wall-clock bound (10 s) applies after every gate is open, i.e. when all work is provably finishable",
+    ],
+}
